@@ -10,31 +10,35 @@ open Verif Verif.Schema Verif.Rfc4512
 
 /-- the text form of a valid object-class description is a sentence of the RFC 4512 grammar
     denoting it … -/
-theorem oc_text_is_sentence (d : ObjectClass) (h : d.WF) : OCSent d (ocToText d) :=
+theorem oc_text_is_sentence (d : ObjectClass) (h : ObjectClass.WF d) : OCSent d (ocToText d) :=
   Proofs.ocToText_sentence d h
 
 /-- … hence parsing it yields the definition itself (every valid field combination, any
     description / extension strings) -/
-theorem object_class (d : ObjectClass) (h : d.WF) : parseOC (ocToText d) = .ok d :=
+theorem object_class (d : ObjectClass) (h : ObjectClass.WF d) : parseOC (ocToText d) = .ok d :=
   Proofs.parseOC_sentence d _ (oc_text_is_sentence d h)
 
-theorem at_text_is_sentence (d : AttributeType) (h : d.WF) : ATSent d (atToText d) :=
+theorem at_text_is_sentence (d : AttributeType) (h : AttributeType.WF d) : ATSent d (atToText d) :=
   Proofs.atToText_sentence d h
 
-theorem attribute_type (d : AttributeType) (h : d.WF) : parseAT (atToText d) = .ok d :=
+theorem attribute_type (d : AttributeType) (h : AttributeType.WF d) : parseAT (atToText d) = .ok d :=
   Proofs.parseAT_sentence d _ (at_text_is_sentence d h)
 
-theorem dcr_text_is_sentence (d : DITContentRule) (h : d.WF) : DCRSent d (dcrToText d) :=
+theorem dcr_text_is_sentence (d : DITContentRule) (h : DITContentRule.WF d) : DCRSent d (dcrToText d) :=
   Proofs.dcrToText_sentence d h
 
-theorem dit_content_rule (d : DITContentRule) (h : d.WF) : parseDCR (dcrToText d) = .ok d :=
+theorem dit_content_rule (d : DITContentRule) (h : DITContentRule.WF d) : parseDCR (dcrToText d) = .ok d :=
   Proofs.parseDCR_sentence d _ (dcr_text_is_sentence d h)
 
 /-! non-vacuity: a description with quote, backslash, `|` and a non-ASCII character -/
-example : parseOC (ocToText { oid := ofString "2.5.6.6", names := [ofString "person"], desc := some [97, 124, 39, 92, 233],
-    sup := [ofString "top"], kind := 0, must := [ofString "sn", ofString "cn"], exts := [(ofString "ORIGIN", [ofString "RFC 4519"])] })
-    = .ok { oid := ofString "2.5.6.6", names := [ofString "person"], desc := some [97, 124, 39, 92, 233],
-            sup := [ofString "top"], kind := 0, must := [ofString "sn", ofString "cn"], exts := [(ofString "ORIGIN", [ofString "RFC 4519"])] } := by
-  decide
+example : parseOC (ocToText {
+      oid := ofString "2.5.6.6", names := [ofString "person"], desc := some [97, 124, 39, 92, 233],
+      sup := [ofString "top"], kind := 0, must := [ofString "sn", ofString "cn"],
+      exts := [(ofString "ORIGIN", [ofString "RFC 4519"])] })
+    = .ok {
+      oid := ofString "2.5.6.6", names := [ofString "person"], desc := some [97, 124, 39, 92, 233],
+      sup := [ofString "top"], kind := 0, must := [ofString "sn", ofString "cn"],
+      exts := [(ofString "ORIGIN", [ofString "RFC 4519"])] } := by
+  rfl
 
 end Verif.C16
